@@ -41,6 +41,12 @@ def use_impl():
     sys.dont_write_bytecode = True
     import logging
 
+    # module loggers of rpft.rapidpro.models print warnings through logging's last-resort
+    # handler: keep stderr clean (warnings are not part of any property)
+    rl = logging.getLogger("rpft")
+    if not rl.handlers:
+        rl.addHandler(logging.NullHandler())
+        rl.propagate = False
     lg = logging.getLogger("main")
     if not any(isinstance(h, _Shutdown) for h in lg.handlers):
         lg.addHandler(_Shutdown())
